@@ -34,7 +34,7 @@ def cse(expressions, cse_concat=True, cse_in_brackets=False, verbose=False):
     # Keep only expressions
     # 1. with at least one axis
     # 2. where axes are not also used outside the expression
-    common_exprs = set()
+    common_exprs = []  # in order of first occurrence: the result must not depend on the hash seed
     for str_expr in str_to_common_expr.keys():
         used_axis_ids = set()
         used_axis_names = set()
@@ -61,8 +61,10 @@ def cse(expressions, cse_concat=True, cse_in_brackets=False, verbose=False):
                         axes_used_only_in_this_subexpression = axes_used_only_in_this_subexpression and id(global_axis) in used_axis_ids
 
         if axes_used_only_in_this_subexpression:
-            common_exprs.add(str_expr)
+            common_exprs.append(str_expr)
 
+    # Longer subexpressions first (overlapping candidates such as "a b" and "a b c" are replaced in this order), ties in order of occurrence
+    common_exprs = sorted(common_exprs, key=lambda k: -len(str_to_common_expr[k][0]))
     common_exprs = [str_to_common_expr[k] for k in common_exprs]  # list of common_expr(=list of exprlist)
 
     if verbose:
